@@ -204,7 +204,7 @@ c.param("raw_pattern", KStr())
 c.returns(KBool())
 c.ensures("C09.v1.is_valid.is_the_acceptance_predicate", lambda a, res, cx: b_iff(v_truthy(res), ACCEPTS_V1(V.z3str(a.raw_pattern), V.z3str(a.version_str))))
 c.exsures(_re.error)
-c.trusted = "callers' view of the legacy engine (its parse is C20)"
+c.trusted = "callers' view of the legacy engine; body: contract variant 'body' in contracts/parse_version.py"
 
 
 def accepts(pattern, s, is_new):
@@ -240,6 +240,7 @@ c.param("all_tags", KSeq("str"))
 c.param("version_pattern", KStr())
 c.param("is_new_pattern", KBool())
 c.ensures("C09._parse_version_tags.keeps_exactly_the_tags_valid_for_the_pattern", _pvt_clause)
+c.exsures(_re.error)  # an uncompilable version pattern (rejected when the config is loaded)
 c.inline = True  # callers execute the (one line) body: its element-wise result is what they index and search
 c.inline_for_callers = True
 
@@ -380,8 +381,7 @@ c.returns(KOpaque("V1VersionInfo"))
 c.ensures("C20.v1.parse_version_info.returns_only_if_accepted", lambda a, res, cx: ACCEPTS_V1(V.z3str(a.raw_pattern), V.z3str(a.version_str)))
 c.exsures(version.PatternError, "C20.v1.parse_version_info.pattern_error_iff_not_accepted", lambda a, exc, cx: z3.Not(ACCEPTS_V1(V.z3str(a.raw_pattern), V.z3str(a.version_str))))
 c.exsures(_re.error)
-c.exsures(ValueError)
-c.trusted = "callers' view of the legacy parser (C20)"
+c.trusted = "callers' view of the legacy parser; body: contract variant 'body' in contracts/parse_version.py"
 
 c = REG.new("bumpver.cli._is_valid_version")
 c.setup = assume_order_laws
